@@ -15,11 +15,13 @@ order and LCP array) does not depend on it and the theorems quantify over it:
   * the order in which sub-ranges are processed (jobs, work sharing): the recursion below
     handles buckets left to right; `Props/C04` shows the result of a bucket depends only
     on the bucket, hence any order gives the same arrays;
-  * `insertion_sort(strptr, depth, 0)` (C03) is taken by its specification `baseSort`.
+  * `insertion_sort(strptr, depth, 0)` is the transliteration of property C03
+    (`C03.insertionSort`, LCP overload; `insSort` below adapts the result format).
 A result is the sorted string list and an LCP list of the same length whose entry 0 is
 the slot the sorter of this range does not write (0 here).
 -/
 import TlxVerif.Model.C04Classify
+import TlxVerif.Model.C03Insertion
 namespace TlxVerif.C04
 
 structure Params where
@@ -68,6 +70,12 @@ def lcpsOf : List Str → List Nat
 def baseSort (strs : List Str) : Res :=
   let out := strs.foldl (fun acc s => insertStr s acc) []
   { out := out, lcp := lcpsOf out }
+
+/-- `insertion_sort(strptr, depth, memory = 0)` of tlx/sort/strings/insertion_sort.hpp: the model of
+property C03 (LCP overload) on an LCP range whose slots hold 0 -/
+def insSort (depth : Nat) (strs : List Str) : Res :=
+  let r := C03.insertionSort (fun s : Str => s) true depth strs (List.replicate strs.length 0)
+  { out := r.1, lcp := r.2 }
 
 /-- `fill_lcp(v)`: entries 1.. of the range -/
 def fillLcp (n v : Nat) : List Nat :=
@@ -131,7 +139,7 @@ def insGroups (depth : Nat) (prev : Option Key) : Nat → List (Str × Key) → 
     let after := rest.dropWhile (·.2 = k)
     let inner : Res :=
       if grp.length > 1 then
-        if lowByte k ≠ 0 then baseSort (grp.map (·.1))      -- insertion_sort(sub, depth + 8)
+        if lowByte k ≠ 0 then insSort (depth + 8) (grp.map (·.1))      -- insertion_sort(sub, depth + 8)
         else doneRes (grp.map (·.1)) (depth + lcpKeyDepth k)
       else { out := [s], lcp := [0] }
     let inner : Res := match prev with
@@ -199,7 +207,7 @@ def sortM (env : Env) : Nat → Mode → List Str → Nat → M Res
       let lcps ← lcpPass c env.p.useCalc out lcps depth bounds
       pure { out := out, lcp := lcps }
     | .mkqsTop =>
-      if n < env.p.inssort then pure (baseSort strs)
+      if n < env.p.inssort then pure (insSort depth strs)
       else sortM env fuel .mkqs strs depth
     | .mkqs => do
       if n = 0 then .error .internal else
@@ -218,7 +226,7 @@ def sortM (env : Env) : Nat → Mode → List Str → Nat → M Res
       let rlt ← sub lt
       let req ←
         if lowByte pivot = 0 then pure (doneRes eq (depth + lcpKeyDepth pivot))
-        else if eq.length < env.p.inssort then pure (baseSort eq)   -- insertion_sort_cache<true>
+        else if eq.length < env.p.inssort then pure (insSort (depth + 8) eq)   -- insertion_sort_cache<true>
         else sortM env fuel .mkqs eq (depth + 8)
       let rgt ← sub gt
       let r := (rlt.append req).append rgt
